@@ -62,7 +62,45 @@ Theorem C20_activate_maps_documented_paths :
 Proof. exact (fun en => activate_maps_documented_paths gen_facts en). Qed.
 Print Assumptions C20_activate_maps_documented_paths.
 
+(** config |-> session attributes, for every state of the Builder objects: an ACTIVATE_CONFIG entry that
+    Builder._set_config routes to dialect slot i determines attribute i of the session getOrCreate returns *)
+Theorem C20_dialects_given :
+  forall en s e k i v,
+    sql s = Some (SfPkg e) -> mem e (f_selfref gen_facts) = false ->
+    assoc k (f_chain gen_facts) = Some i -> (i <? 3)%nat = true -> In (k, v) (config s) ->
+    (forall k' v', In (k', v') (config s) -> assoc k' (f_chain gen_facts) = Some i -> v' = v) ->
+    forall e0 c0, fst (get_or_create gen_facts en s) = GSession e0 c0 ->
+    exists d, lastd (snd (get_or_create gen_facts en s)) = LSome d /\ nth_dial i d = v.
+Proof. exact (fun en => goc_dialects_given gen_facts en). Qed.
+Print Assumptions C20_dialects_given.
+
 (** * instantiation obligations on the regenerated facts *)
+
+(** Builder._set_config routes each documented dialect key to its own attribute -- in the single-key elif chain (the
+    path ACTIVATE_CONFIG is replayed through) and in the map= block -- and the connection key to the conn argument *)
+Lemma gen_chain_ok :
+  forallb (fun ki => match assoc (fst ki) (f_chain gen_facts), assoc (fst ki) (f_mapkeys gen_facts) with
+                     | Some i, Some j => Nat.eqb i (snd ki) && Nat.eqb j (snd ki)
+                     | _, _ => false
+                     end)
+          [("sqlframe.input.dialect", 0); ("sqlframe.output.dialect", 1); ("sqlframe.execution.dialect", 2);
+           (f_conn_key gen_facts, 3)] = true.
+Proof. vm_compute. reflexivity. Qed.
+
+(** every engine: the three dialects given to activate(), then to builder.config(key, value), then to
+    builder.config(map=...) are the dialects of the session getOrCreate returns *)
+Example gen_dialects_reach_session :
+  forallb (fun e => mem e (f_selfref gen_facts) ||
+    match fst (run gen_facts absent init_state
+                 [Activate e (Some 1) [("sqlframe.input.dialect", 11); ("sqlframe.output.dialect", 13); ("sqlframe.execution.dialect", 15)];
+                  GetOrCreate; ReadDialects;
+                  BuilderConfig true [("sqlframe.execution.dialect", 14)]; BuilderConfig false [("sqlframe.output.dialect", 16)];
+                  Activate e (Some 1) []; GetOrCreate; ReadDialects]) with
+    | [_; _; (EDial (Some (11, (13, 15))), _); _; _; _; _; (EDial (Some (11, (16, 14))), _)] => true
+    | _ => false
+    end) engines = true.
+Proof. vm_compute. reflexivity. Qed.
+
 
 (** in a fresh interpreter activate(e) is in the domain for every documented engine *)
 Lemma gen_fresh_activation_ok : forallb (fun e => act_ok gen_facts e init_state) engines = true.
